@@ -34,6 +34,11 @@ def classify(text, root, err):
             return 'F18'
         if tag == 'crossHeading' and parent == 'authorialNote':
             return 'F41'
+        if tag == 'crossHeading' and parent in ('content', 'intro', 'wrapUp', 'td', 'th', 'li', 'item', 'blockContainer', 'hcontainer') \
+                and re.search(r'^[ \t]*FOOTNOTE +[^ \n]', text, re.M) and re.search(r'^[ \t]*CROSSHEADING', text, re.M):
+            # the grammar produces a crossheading in such a place only inside a FOOTNOTE block; an unreferenced
+            # block is unwrapped where it stands
+            return 'F45'
         if tag in HIER_TAGS and parent not in HIER_TAGS and re.search(r'^[ \t]*FOOTNOTE +[^ \n]', text, re.M):
             return 'F6'
     if k == 'missing-child':
